@@ -18,7 +18,7 @@ def zmin(a, b):
 
 
 def world():
-    w = {'Len': z3.Int('Len')}
+    w = {'Len': z3.Int('Len'), 'fpos': z3.Int('fpos')}
     Len = w['Len']
 
     def wf(o):
@@ -186,9 +186,34 @@ TELL = Contract(
     witness_terms=witness(),
 )
 
+def set_buffers(eng, obj, val):
+    if isinstance(val, dict) and not val:
+        obj.f['buffers'] = BufMap.empty()
+    else:
+        raise Unsupported('self.buffers assigned something other than {}')
+
+
+INIT = Contract(
+    key=f'{BR}:BufferedReader.__init__', props=['C20', 'C16'],
+    env=lambda w: {'self': Obj('BufferedReader', {}), 'reader': FileModel(w['Len'], z3.Int('fpos')),
+                   'buffersize': z3.Int('buffersize'), 'data': None, 'offset': z3.Int('offset'),
+                   'size': z3.Int('size'), 'max_buffers': z3.Int('max_buffers')},
+    # what the two call sites (load_fragment, modify_media_file) must establish: the window lies inside the file
+    requires=[('window', 'buffersize >= 1 and offset >= 0 and size >= 0 and offset + size <= Len and max_buffers >= 1'),
+              ('fpos', 'fpos >= 0')],
+    models={'super().__init__': lambda eng, e, args, kw: None, 'setattr:BufferedReader.buffers': set_buffers},
+    modifies=['self.reader', 'self.buffers', 'self.buffersize', 'self.pos', 'self.offset', 'self.size',
+              'self.max_buffers', 'self.num_buffers'],
+    ensures=[('wf', 'wf(self)'), ('at_start', 'self.pos == 0 and self.offset == offset and self.size == size '
+                                               'and self.buffersize == buffersize and self.max_buffers == max_buffers'),
+             ('empty_cache', 'card(self.buffers) == 0')],
+    canaries=['self.size == 0'],
+    witness_terms=witness(),
+)
+
 GROUP = Group(
     name='bufreader', world=world,
-    contracts=[CACHE, PEEK, READALL, READ, SEEK, TELL],
+    contracts=[INIT, CACHE, PEEK, READALL, READ, SEEK, TELL],
     assumptions=[
         'C20: the reader is opened with an explicit size (as in the property statement); the lazily sized '
         'reader (size=None) is outside the contracts',
@@ -197,7 +222,8 @@ GROUP = Group(
         'C20: time.time() is an arbitrary real; eviction order therefore arbitrary - results do not depend on it',
     ],
     trusted=['pyvc/models/bufreader.py: FileModel, BytesIOModel, BufMap (dict with ghost cardinality), memoryview = identity on slices'],
-    not_covered=['load_fragment / modify_media_file call sites (constructor precondition offset+size <= Len)',
+    not_covered=['load_fragment / modify_media_file call sites (they must establish the constructor precondition '
+                 'offset+size <= Len; frag.pos/frag.size come from Representation.load, which is not under contract)',
                  'BufferedReader with data=... (in-memory) and with size=None',
                  'readable/seekable/close of io.RawIOBase'],
 )
